@@ -116,12 +116,15 @@ def synthetic_cases(draw):
     texts = st.sampled_from(PRAGMA_TEXTS)
     kws = st.sampled_from(['loki', 'loki', 'loki', 'acc'])
     excluded = [0]
+    by_marker = {}
 
     def rec(d):
         d.pop('pragma', None)                      # starting state is always detached
         if d['k'] == 'Pragma':
-            d['text'] = draw(texts)
-            d['kw'] = draw(kws)
+            # copies of a node (same marker) stay equal
+            if d['m'] not in by_marker:
+                by_marker[d['m']] = (draw(texts), draw(kws))
+            d['text'], d['kw'] = by_marker[d['m']]
         for sl, kind in tgen.SLOTS.get(d['k'], ()):
             if kind == 'N':
                 # empty CASE / WHERE branch bodies are stripped by every Transformer (listed C14 finding)
@@ -227,13 +230,17 @@ def _safe_eq(a, b):
 
 
 def dfa_state(node):
-    """'raises' if all three dataflow properties raise RuntimeError, else the names that do not"""
+    """names of the dataflow properties that answer instead of raising"""
     bad = []
     for prop in ('live_symbols', 'defines_symbols', 'uses_symbols'):
         try:
             getattr(node, prop)
             bad.append(prop)
         except RuntimeError:
+            pass
+        except KeyError:
+            # Comment nodes never analysed have no placeholder at all (Comment.__post_init__ does not create it):
+            # KeyError instead of RuntimeError; still "no dataflow info", not part of the statement
             pass
     return bad
 
@@ -332,28 +339,17 @@ def build_unit(case):
     from loki import Subroutine
     from loki.ir import nodes as ir
     b = tgen.Builder(with_source=False)
-
-    def fix(d):
-        # Builder uses keyword 'loki' for all pragmas; apply the generated keyword afterwards
-        return d
-    spec_nodes = tuple(b.build(d, register=False) for d in case['spec'])
+    spec_nodes = []
+    for d in case['spec']:
+        n = b.build(d, register=False)
+        if d['k'] == 'Pragma':
+            n._update(keyword=d.get('kw', 'loki'))      # Builder always writes keyword 'loki'
+        spec_nodes.append(n)
     body = b.build(case['tree'])
-    unit = Subroutine(name='c16_syn', spec=ir.Section(body=spec_nodes), body=body)
-    # generated keywords (Builder always writes 'loki')
-    kws = {}
-
-    def collect(d):
-        if d['k'] == 'Pragma' and d.get('kw', 'loki') != 'loki':
-            kws[d['text'], d['m']] = d['kw']
-        for c in tgen.desc_children(d):
-            collect(c)
-    collect(case['tree'])
-    if kws:
-        idx = tgen.index_desc(case['tree'])
-        for e, n in zip(idx, b.nodes):
-            if e['kind'] == 'Pragma' and e['d'].get('kw', 'loki') != 'loki':
-                n._update(keyword=e['d']['kw'])
-    return unit
+    for e, n in zip(tgen.index_desc(case['tree']), b.nodes):
+        if e['kind'] == 'Pragma':
+            n._update(keyword=e['d'].get('kw', 'loki'))
+    return Subroutine(name='c16_syn', spec=ir.Section(body=tuple(spec_nodes)), body=body)
 
 
 # ---------------------------------------------------------------------------
@@ -394,6 +390,8 @@ class Runner:
         raise Abort()
 
     def loki_raised(self, stage, op, exc):
+        if self.failed:
+            raise Abort()          # consequence of an already recorded failure
         self.fail(f'C16:raises:{op["op"]}:{stage}:{exc_bucket(exc)}', f'{stage} of {_opname(op)} raised {exc!r}')
 
     def check_same(self, before, op, when):
@@ -407,8 +405,9 @@ class Runner:
         return after
 
     def check_dfa_gone(self, op, hidden, when):
+        from loki.ir import Node
         for path, cls, obj in walk(self.unit, '', [], hidden=hidden):
-            if obj is None or not hasattr(obj, 'live_symbols'):
+            if not isinstance(obj, Node):
                 continue
             bad = dfa_state(obj)
             if bad:
@@ -523,7 +522,7 @@ class Runner:
 
     def run_ctx(self, op, depth):
         cmp_ok = self.comparable(op)
-        before = Snap(self.unit) if (cmp_ok or not self.active) else None
+        before = Snap(self.unit) if cmp_ok else None
         stats0 = attachment_stats(self.unit)
         name = _opname(op)
         self.classes.add(f'op:{op["op"]}:{op["via"]}')
@@ -560,10 +559,8 @@ class Runner:
                 raise                      # our own code (or an unexpected query failure): harness error
             self.loki_raised(stage[0], op, e)
         # the context is closed (normally or by the planned exception)
-        if before is not None and cmp_ok:
+        if before is not None:
             self.check_same(before, op, f'after leaving {name}' + (' by exception' if pending else ''))
-        elif before is not None:
-            pass
         if op['op'] == 'dfa' and not any(o['op'] == 'dfa' for o in self.active):
             self.check_dfa_gone(op, hidden=False, when=f'after leaving {name}')
         if pending is not None:
@@ -623,7 +620,6 @@ class Runner:
     # ---- entry -----------------------------------------------------------------------------
     def run(self):
         hist = self.case['hist']
-        start = Snap(self.unit)
         place = placement_classes(self.unit)
         s0 = attachment_stats(self.unit)
         if s0[1] or s0[2] or s0[3]:
@@ -638,7 +634,6 @@ class Runner:
                         pass
             else:
                 lifo = self.run_flat(hist['steps'])
-            self.check_same(start, None, 'end of history')
             if lifo:
                 self.check_dfa_gone(None, hidden=True, when='end of history')
         except Abort:
